@@ -376,9 +376,18 @@ class World:
             del self.log[:]
         del self.io[:]
 
-    def wait_writes(self, n, timeout=20.0):
+    _slow_once = [False]
+
+    def wait_writes(self, n, timeout=None):
+        # real threads, real time: generous on a loaded machine (90 s); once a wait has really expired in this process the
+        # tree does not transmit, and the remaining cases need not wait that long each
+        if timeout is None:
+            timeout = 10.0 if self._slow_once[0] else 90.0
         with self.cond:
-            return self.cond.wait_for(lambda: len(self.log) >= n, timeout)
+            ok = self.cond.wait_for(lambda: len(self.log) >= n, timeout)
+        if not ok:
+            self._slow_once[0] = True
+        return ok
 
     def snapshot(self):
         with self.cond:
@@ -953,6 +962,49 @@ def part_replug(_):
     return p
 
 
+def part_reinit(_):
+    """init_drivers() called again with the optional serial driver switched on (an application that offers the option
+    later): every scheme, the serial one included, is handed to a driver of the right class."""
+    import cflib.crtp
+    p = Partial()
+    world = World()
+    crtp = install(world, serial_driver=False, prrt=True)
+    for second in (True, False):
+        # what install() left is the list for "serial driver off"; initialise once more without clearing the list
+        try:
+            crtp.init_drivers(enable_serial_driver=second)
+        except HarnessError:
+            raise
+        except Exception as e:  # noqa
+            p.violation('dispatch:reinit_raises', 'init_drivers(enable_serial_driver=%r) on an initialised library raised %r'
+                        % (second, e), {'part': 'reinit'})
+            continue
+        schemes = _scheme_classes()
+        for kind, uri in WELL_FORMED:
+            if kind == 'serial' and not second:
+                continue
+            world.air = ack_all
+            world.reset_log()
+            try:
+                link = bounded('get_link_driver', crtp.get_link_driver, uri, None, lambda msg: None)
+                res = 'none' if link is None else type(link).__name__
+            except HarnessError:
+                raise
+            except Exception as e:  # noqa
+                link, res = None, 'raises ' + type(e).__name__
+            if link is not None:
+                bounded('close', link.close)
+            p.case(key=('reinit', second, uri), outcome=(kind, res))
+            if res != schemes[kind].__name__:
+                p.violation('dispatch:get_link_driver_after_reinit:scheme=%s' % kind,
+                            'init_drivers() and then init_drivers(enable_serial_driver=%r): get_link_driver(%r) -> %s, expected a '
+                            '%s' % (second, uri, res, schemes[kind].__name__), {'part': 'reinit'})
+        del crtp.CLASSES[:]
+        crtp.init_drivers(enable_serial_driver=False)
+    drain_threads()
+    return p
+
+
 def part_dispatch(cfg):
     p = Partial()
     world = World()
@@ -1233,7 +1285,7 @@ def run(ck):
     dispatch_jobs = [('dispatch', (s, pr)) for s in (False, True) for pr in (True, False)]
     # the serial driver enabled on a machine without pyserial: it must still leave the other schemes alone
     dispatch_jobs.append(('dispatch', (True, True, False)))
-    replug_jobs = [('replug', None)]
+    replug_jobs = [('replug', None), ('reinit', None)]
     nol = 12
     openlink_jobs = [('openlink', (thorough, s, c, nol)) for s in (False, True) for c in range(nol)]
     jobs = _interleave([parse_jobs, connect_jobs, scan_jobs, dispatch_jobs, openlink_jobs, replug_jobs])
@@ -1297,6 +1349,9 @@ def replay(ck, data):
         for s in ck.samples[-1:]:
             for step in s['same_object_sequence']:
                 print(step)
+    elif part == 'reinit':
+        ck.merge(part_reinit(None))
+        return
     elif part == 'hang':
         arg = data.get('arg')
         part_p = _dispatch((data['job'], tuple(arg) if isinstance(arg, list) else arg))
